@@ -117,6 +117,11 @@ BOUNDARY_EXPRS = [
     "x if m else 1", "m + 1", "x + m", "len(m)", "s + f'{m}'",
     "1.5 + 2.25", "0.1 + 0.2", "1 / 3", "7 // 2.0", "-7 // 2", "-7 % 3", "7 % -3", "7.5 % 2", "-7.5 // 2", "2 ** 0.5", "(-8) ** 0.5",
     "10 ** 20", "2 ** 100", "2.0 ** 100", "1e308 * 10", "255 // 1 * 1.0", "int(1e20)", "round(2.5)", "3 * 'ab'",
+    "chr(65)", "ord('a')", "oct(8)", "hex(255)", "bin(5)", "sum([1, 2])", "pow(2, 3)", "divmod(7, 2)", "sorted([2, 1])", "list((1, 2))",
+    "tuple([1])", "repr(1)", "id(1)", "type(1)", "range(3)", "complex(1)", "bytes(2)", "any([1])", "all([])", "ascii('a')", "hash(1)",
+    "format(1)", "getattr(1, 'real')", "isinstance(1, int)", "callable(len)", "iter([1])", "dict()", "set()", "frozenset()", "object()",
+    "[1, 2, 3, 4, 5, 6, 7, 8]", "[x, 0, 0, 0, 0, 0, 0, 255]", "(1, 2, 3, 4, 5, 6, 7, 8)", "[1.5, True, 0, 0, 0, 0, 0, 0]", "[x] * 8",
+    "[0, 0, 0, 0, 0, 0, 0, s]", "[0, 0, 0, 0, 0, 0, 0, m]", "[0, 0, 0, 0, 0, 0, 0]", "[0, 0, 0, 0, 0, 0, 0, 0, 0]", "[b, y, x, -1, 256, 2 ** 10, 7 // 2, 1 / 2]",
     "not not x", "not (x and y)", "-(x if b else y)", "+ + x", "- - - x", "(x, y) < (y, x)", "[1] + [2]", "[1] * 2",
     "x + True", "True / 2", "True // 2", "False ** False", "1 < True", "b == 1", "b is True",
 ]
